@@ -134,13 +134,27 @@ def harness_build(profile="tie", serde=True, target_dir=None, features=None):
     return rc == 0, out + err, os.path.join(td, pdir, "rngs_harness")
 
 # ------------------------------------------------------------------ running scripts
+def place_destination(line):
+    """`fill s n` -> `fill s n off`: where the destination buffer starts relative to a 16-byte aligned address is chosen from
+    the length (a third of the fills aligned, the rest at odd / even offsets); the model ignores the token.  Applied to every
+    script at the lowest level, so that every family of every check also varies the alignment of the caller's buffer, and a
+    replay reproduces it."""
+    t = line.split(" ")
+    k = 1 if t and t[0].startswith("@") else 0
+    if len(t) == k + 3 and t[k] == "fill" and t[k + 2].isdigit():
+        n = int(t[k + 2])
+        off = 0 if n % 3 == 0 else (n * 7 + 3) % 16
+        if off:
+            return line + f" {off}"
+    return line
+
 def run_exe(exe, cases, timeout=3600):
     """cases: list of lists of command lines. Each case is run after a `reset`.
     Returns list of lists of output lines (one per command)."""
     lines = []
     for c in cases:
         lines.append("reset")
-        lines.extend(c)
+        lines.extend(place_destination(l) for l in c)
     data = ("\n".join(lines) + "\n").encode()
     p = subprocess.run([exe], input=data, capture_output=True, timeout=timeout)
     out = p.stdout.decode(errors="replace").split("\n")
